@@ -152,6 +152,14 @@ func runC10(c *Ctx) {
 						k.KeyCertificate.CryptoSize() == len(pub) && k.KeyCertificate.SigningPublicKeySize() == len(spk) &&
 						len(pub) == cl && len(spk) == sl && bytes.Equal(p.Rem, tail)
 					detail = fmt.Sprintf("sig %d crypto %d: pub=%d spk=%d pad=%d", s, cr, len(pub), len(spk), len(k.Padding))
+					// the serialiser lays the block out the same way
+					if ok {
+						out, err := k.Bytes()
+						ok = err == nil && len(out) >= 384 && bytes.Equal(out[:cl], pub) && bytes.Equal(out[cl:384-sl], k.Padding) && bytes.Equal(out[384-sl:384], spk)
+						if !ok {
+							detail += fmt.Sprintf("; serialised block differs: %x", out)
+						}
+					}
 				}
 				c.Check("key_block_layout", ok, "ReadKeysAndCert", [][]byte{in}, "", detail)
 			}
